@@ -28,7 +28,7 @@ def stable_key(name):
 
 def load_contracts(src):
     import contracts.streams, contracts.binary, contracts.classes, contracts.prims, contracts.oracles, contracts.tables, contracts.bitstream  # noqa
-    for mod in ('wrappers', 'adapters', 'transforms', 'delimited', 'intlemmas', 'conditionals', 'simple', 'bitregions', 'equivlemmas', 'lazy', 'lazy', 'exprs', 'containers', 'codegen', 'ksy', 'lemmas', 'entry'):
+    for mod in ('wrappers', 'adapters', 'transforms', 'delimited', 'intlemmas', 'conditionals', 'simple', 'bitregions', 'equivlemmas', 'leblemmas', 'lazy', 'lazy', 'exprs', 'containers', 'codegen', 'ksy', 'lemmas', 'entry'):
         try:
             __import__('contracts.' + mod)
         except ModuleNotFoundError as e:
